@@ -521,7 +521,7 @@ class PBlock(stl.Block):
         # bit.pointers.* and vice versa); the consistency pairs cover every pointer-cell pair the image has
         if 'hex.pointers.to_flip' in L:
             q = w // 4
-            if self.ns == 'hex':
+            if self.ns.startswith('hex'):
                 scratch[L['hex.pointers.to_flip'] >> ww] = allm
                 scratch[(L['hex.pointers.to_jump'] >> ww) + 1] = allm
                 for lbl, nops in (('hex.pointers.to_flip_var', q), ('hex.pointers.to_jump_var', q), ('hex.pointers.nth_ptr', q),
